@@ -363,6 +363,139 @@ def established (X : X509) (F : Facts) (k : Kind) (hostport resolved : Name) (co
         && serverAdmits X scfg ccfg.certs.head?
   | _, _ => false
 
+
+/-! ## histories: several connection attempts through ONE certificate manager
+
+    `Upstreams.open` walks the fail-over list with one manager, a lost session is re-opened with the
+    same manager, and one client configuration serves upstreams of several kinds.  Every kind writes
+    into the `*tls.Config` object it gets (Socket.Connect: ServerName when empty; startTls:
+    ServerName; InputOutput.Connect: InsecureSkipVerify), so what an attempt hands to crypto/tls is a
+    function of the options and the upstream alone only if the manager hands out a new object on
+    every call.  That is the regenerated fact SA.Gen.getTlsConfigFreshPerCall; the model below keeps
+    the manager's state explicit so that the theorem (C05_history_independent) depends on it. -/
+
+/-- what the manager keeps between two calls of GetTlsConfig: nothing, or the object it will hand out again -/
+abbrev Mgr := Option TlsCfg
+
+/-- ClientConfig.GetTlsConfig on a manager in state `m`; `fresh`: every call builds a new object,
+    otherwise the object of the first successful call is handed out again -/
+def mgrGet (fresh : Bool) (o : Opts) (m : Mgr) : Res TlsCfg :=
+  if fresh then clientGetTlsConfig o
+  else
+    match m with
+    | some c => .ok (if o.flag then { c with insecureSkipVerify := true } else c)
+    | none => clientGetTlsConfig o
+
+/-- one connection attempt: the upstream (kind, `host:port`, what it resolves to, whether the peer
+    answers on the carrier) and the options of the server behind it -/
+structure Attempt where
+  kind : Kind
+  hostport : Name
+  resolved : Name
+  up : Bool
+  so : Opts
+  deriving DecidableEq, Repr
+
+/-- server.go: STARTTLS is offered iff the server's config loads and carries a certificate -/
+def offersStartTls (F : Facts) (so : Opts) : Bool :=
+  match serverGetTlsConfig F.guardErrNil so with
+  | .ok scfg => !scfg.certs.isEmpty
+  | _ => false
+
+/-- does the attempt get as far as asking the manager for a config?  TLS socket, websocket and stdio
+    ask before they dial / shake hands; StartTLS asks once the server has offered STARTTLS -/
+def Attempt.asks (F : Facts) (a : Attempt) : Bool :=
+  match a.kind with
+  | .startTls => a.up && offersStartTls F a.so
+  | _ => true
+
+/-- what the upstream kind writes into the object it got, before crypto/tls sees it -/
+def kindWrites (F : Facts) (k : Kind) (hostport : Name) (c : TlsCfg) : TlsCfg :=
+  let c := if forcesInsecure F.sites k then { c with insecureSkipVerify := true } else c
+  match k with
+  | .startTls => { c with serverName := startTlsName F.stripsPort hostport }
+  | .socketTls =>
+    if c.serverName.isEmpty && F.setsHostname then { c with serverName := urlHostname hostport } else c
+  | .httpTls => c
+  | .stdioTls => c
+
+/-- the name crypto/tls verifies, given the object: its ServerName, or what the library derives
+    when that is empty (tls.Dial: from the dialled address; gorilla/websocket: from the URL) -/
+def effName (k : Kind) (hostport resolved : Name) (c : TlsCfg) : Name :=
+  if !c.serverName.isEmpty then c.serverName
+  else
+    match k with
+    | .socketTls => dialHostname resolved
+    | .httpTls => urlHostname hostport
+    | _ => []
+
+/-- one attempt on a manager in state `m`: the object handed to crypto/tls (`none`: no config was
+    asked for, or it did not load) and the manager's state afterwards -/
+def attemptOn (F : Facts) (fresh : Bool) (o : Opts) (a : Attempt) (m : Mgr) : Option TlsCfg × Mgr :=
+  if a.asks F then
+    match mgrGet fresh o m with
+    | .ok c =>
+      let c' := kindWrites F a.kind a.hostport c
+      (some c', if fresh then m else some c')
+    | _ => (none, m)
+  else (none, m)
+
+/-- is the session established, given what the attempt handed to crypto/tls? -/
+def sessionWith (X : X509) (F : Facts) (a : Attempt) : Option TlsCfg → Bool
+  | none => false
+  | some ccfg =>
+    a.up &&
+      match serverGetTlsConfig F.guardErrNil a.so with
+      | .ok scfg =>
+        (match scfg.certs.head? with
+         | none => false
+         | some peer =>
+           clientAccepts X { ccfg with serverName := effName a.kind a.hostport a.resolved ccfg } peer
+             && serverAdmits X scfg ccfg.certs.head?)
+      | _ => false
+
+/-- does the upstream's `Connect` return without error (that is what stops the fail-over walk)?
+    With TLS 1.3 the client's handshake completes before the server has verified the client
+    certificate.  A StartTLS upstream reads nothing after its TLS handshake, so a server that turns
+    the client certificate down shows only when the first stream is opened; the other kinds run the
+    socketace handshake over the TLS session inside Connect and see the refusal there. -/
+def connectsWith (X : X509) (F : Facts) (a : Attempt) (c : Option TlsCfg) : Bool :=
+  match a.kind with
+  | .startTls =>
+    (match c with
+     | none => false
+     | some ccfg =>
+       a.up &&
+         match serverGetTlsConfig F.guardErrNil a.so with
+         | .ok scfg =>
+           (match scfg.certs.head? with
+            | none => false
+            | some peer => clientAccepts X { ccfg with serverName := effName a.kind a.hostport a.resolved ccfg } peer)
+         | _ => false)
+  | _ => sessionWith X F a c
+
+/-- what is observed of one attempt -/
+structure Outcome where
+  cfg : Option TlsCfg
+  est : Bool
+  deriving DecidableEq, Repr
+
+/-- the attempt on its own: a function of the client options and the upstream ONLY -/
+def alone (X : X509) (F : Facts) (o : Opts) (a : Attempt) : Outcome :=
+  let c := (attemptOn F true o a none).1
+  ⟨c, sessionWith X F a c⟩
+
+/-- a history of attempts through one manager.  `failover`: the walk of `Upstreams.open`, which
+    stops at the first upstream whose Connect succeeds (the rest are not tried: `none`); otherwise every
+    attempt is made (connect, disconnect, connect again). -/
+def runHist (X : X509) (F : Facts) (fresh : Bool) (o : Opts) (failover : Bool) : List Attempt → Mgr → List (Option Outcome)
+  | [], _ => []
+  | a :: as, m =>
+    let r := attemptOn F fresh o a m
+    let est := sessionWith X F a r.1
+    some ⟨r.1, est⟩ ::
+      (if failover && connectsWith X F a r.1 then as.map (fun _ => none) else runHist X F fresh o failover as r.2)
+
 /-! ## reference oracle and certificate table of the harness PKI (driver only) -/
 
 structure CertAttrs where
@@ -373,6 +506,7 @@ structure CertAttrs where
 def certTable : List (String × CertAttrs) := [
   ("good", ⟨"A", ["server.test", "localhost", "127.0.0.1"], false⟩),
   ("nameonly", ⟨"A", ["server.test", "localhost"], false⟩),
+  ("iponly", ⟨"A", ["127.0.0.1"], false⟩),
   ("wronghost", ⟨"A", ["other.test", "10.9.9.9"], false⟩),
   ("untrusted", ⟨"B", ["server.test", "localhost", "127.0.0.1"], false⟩),
   ("expired", ⟨"A", ["server.test", "localhost", "127.0.0.1"], true⟩),
@@ -556,6 +690,51 @@ def handleAuthmatrix (toks : List String) : String :=
       let co : Opts := if ccert = "none" then co0 else leafSrc ("c" ++ ccert) co0
       let hostport : Name := if noHost then [] else hostname.toList ++ ":4443".toList
       pure (if established refX509 genFacts k hostport (refResolve hostport) co so then "established" else "refused")
+    r.getD "bad-op"
+  | _ => "bad-op"
+
+/-! ### `tlshist`: histories through one manager -/
+
+def splitOn1 (sep : Char) (s : String) : List String := (s.splitOn (String.singleton sep))
+
+def parseAttempt (sreq : Bool) (sca : String) (tok : String) : Option Attempt :=
+  match splitOn1 ',' tok with
+  | [carrier, hostname, scert] => do
+    if !(["pipe", "tcp", "tcp+tls", "stdin+tls", "wss"].contains carrier) then none
+    let (k, noHost) ← parseKind carrier
+    if !(["dead", "good", "nameonly", "iponly", "wronghost", "untrusted", "expired"].contains scert) then none
+    if noHost != (hostname == "-") then none
+    if (carrier == "tcp" || carrier == "tcp+tls" || carrier == "wss") && !(hostname == "localhost" || hostname == "127.0.0.1") then none
+    if carrier == "pipe" && (hostname.isEmpty || hostname.toList.any (fun c => c == ':' || c == '/' || c == '[' || c == ']')) then none
+    let caSrc : Src := if sca = "A" then ⟨none, some (.cas ["A"])⟩ else {}
+    let up := scert != "dead"
+    let so : Opts := leafSrc (if up then scert else "good") { ca := caSrc, flag := sreq }
+    let hostport : Name := if noHost then [] else hostname.toList ++ ":4443".toList
+    pure { kind := k, hostport := hostport, resolved := refResolve hostport, up := up, so := so }
+  | _ => none
+
+def outcomeStr : Option Outcome → String
+  | none => "skip:none:0"
+  | some r =>
+    (if r.est then "est" else "ref") ++ ":" ++
+      (match r.cfg with
+       | none => "none:0"
+       | some c => nameHex c.serverName ++ ":" ++ (if c.insecureSkipVerify then "1" else "0"))
+
+def handleTlshist (toks : List String) : String :=
+  match toks with
+  | mode :: ins :: cca :: ccert :: sreq :: sca :: atts =>
+    let r : Option String := do
+      let failover ← (if mode = "list" then some true else if mode = "seq" then some false else none)
+      let ins ← parseBit ins
+      let sreq ← parseBit sreq
+      if !(["none", "good", "foreign"].contains ccert) then none
+      if !(["A", "-"].contains cca) || !(["A", "-"].contains sca) then none
+      if atts.isEmpty || atts.length > 6 then none
+      let as ← atts.mapM (parseAttempt sreq sca)
+      let co0 : Opts := { ca := if cca = "A" then ⟨none, some (.cas ["A"])⟩ else {}, flag := ins }
+      let co : Opts := if ccert = "none" then co0 else leafSrc ("c" ++ ccert) co0
+      pure (" ".intercalate ((runHist refX509 genFacts SA.Gen.getTlsConfigFreshPerCall co failover as none).map outcomeStr))
     r.getD "bad-op"
   | _ => "bad-op"
 
